@@ -137,13 +137,24 @@ def expiry(ctx, zone, iface, expires, max_age, delete=False):
     def build(ns):
         r = ns.PlainTextResponse("x")
         box["t0"] = time.time()
-        if delete:
+        if delete == "after-set":
+            # the same response first sets the cookie, then deletes it: a client applies the lines in order, the last one decides
+            r.set_cookie("sid", "v", max_age=1000)
+            r.delete_cookie("sid")
+        elif delete:
             r.delete_cookie("sid")
         else:
             r.set_cookie("sid", "v", max_age=max_age, expires=expires)
         box["t1"] = time.time()
         return r
     lines, exc, _ = emit(iface, build)
+    if delete == "after-set" and exc is None:
+        lines = [ln for ln in lines if ln.startswith("sid=")]
+        if not lines:
+            ctx.mon("delete-expired")
+            ctx.violation("delete|nothing-emitted-for-a-cookie-set-earlier-on-the-same-response", case, "")
+            return
+        lines = lines[-1:]
     if exc is not None or len(lines) != 1:
         ctx.violation(f"expiry|emit-failed|{type(exc).__name__ if exc else 'line-count'}", case, repr(exc) + repr(lines))
         return
@@ -269,6 +280,8 @@ def run(ctx):
                     ctx.case((zone, iface, e, m) if e is not None else None)
                 expiry(ctx, zone, iface, None, -1, delete=True)
                 ctx.case((zone, iface, "delete"))
+                expiry(ctx, zone, iface, None, -1, delete="after-set")
+                ctx.case((zone, iface, "delete-after-set"))
             ctx.sample("expiry", {"zone": zone, "expires": 3600, "max_age": 10 ** 9}, cap=1)
         if ctx.nshards > len(ZONES) and ctx.shard >= len(ZONES):
             # shards beyond the zone list still exercise one zone so that REQUIRED monitors are meaningful after merge
